@@ -419,7 +419,7 @@ static void read_macro_definition(Token **rest, Token *tok) {
   char *name = strndup(tok->loc, tok->len);
   tok = tok->next;
 
-  if (!tok->has_space && equal(tok, "(")) {
+  if (!tok->has_space && !tok->at_bol && equal(tok, "(")) {
     // Function-like macro
     char *va_args_name = NULL;
     MacroParam *params = read_macro_params(&tok, tok->next, &va_args_name);
